@@ -28,7 +28,7 @@ Clauses(e) ==
       \cup (IF ~ClampExactRequired(c) /\ Has(e, "resid") /\ ~ClampOK(c, x, RAdd(tol, Norm(e.resid, e.den)))
             THEN {"ClampResidual"} ELSE {})
       \cup (IF Feasible(c, x0) /\ \E i \in 1..Len(x) : ~RNear(x[i], x0[i], tol) THEN {"FeasibleFixed"} ELSE {})
-      \cup (IF e.exact /\ (LET p == Project(c, x0) IN \E i \in 1..Len(x) : ~RNear(x[i], p[i], tol))
+      \cup (IF e.exact /\ (LET p == Project(c, x0) IN \E i \in 1..Len(x) : ~FxNear(e.w[i], e.tolu, e.den, p[i]))
             THEN {"DRIFT:Project"} ELSE {})
 
 TraceInit == l = 1
